@@ -450,6 +450,18 @@ def gen_cases(rng, tier, focus=()):
     def boost(fam):
         return 6 if any(fam.startswith(f) or f.startswith(fam) for f in focus) else 1
 
+    # --- cross / dot along a chosen item axis of a matrix-valued first operand ---------
+    # (the vector methods always use axis 0; seeded change C16-I put the new axis of cross() in front whatever axis1)
+    for _ in range(40 * scale * boost('axisop')):
+        op = rng.choice(['cross', 'dot'])
+        item = rng.choice([(3, 3), (2, 3), (3, 2), (3, 4)]) if op == 'cross' else rng.choice([(3, 3), (2, 3), (3, 2), (2, 4)])
+        axes = [k for k in range(2) if item[k] == 3] if op == 'cross' else [0, 1]
+        a1 = rng.choice(axes)
+        sa, sb = rng.choice(BPAIRS)
+        a = gen_operand(rng, sa, item, 'rand')
+        b = gen_operand(rng, sb, (item[a1],), 'rand')
+        a.pop('int', None), b.pop('int', None)
+        cases.append({'fam': 'axisop', 'op': op, 'a': a, 'b': b, 'axis1': rng.choice([a1, a1 - 2]), 'special': False})
     # --- binary vector operations -------------------------------------------------
     for op in BIN_OPS:
         for _ in range(60 * scale * boost('bin:' + op)):
@@ -665,6 +677,27 @@ def run_case0(c, Pm):
     with warnings.catch_warnings():
         warnings.simplefilter('error')
         try:
+            if fam == 'axisop':
+                a, b = build(c['a'], Pm.Matrix), build(c['b'], Pm.Vector)
+                A, B = arr_of(c['a']), arr_of(c['b'])
+                sa, sb = tuple(c['a']['shape']), tuple(c['b']['shape'])
+                lead = np.broadcast_shapes(sa, sb)
+                item = tuple(c['a']['item'])
+                a1 = c['axis1'] % 2
+                Ab = np.broadcast_to(A.reshape((1,) * (len(lead) - len(sa)) + sa + item), lead + item)
+                Bb = np.broadcast_to(B.reshape((1,) * (len(lead) - len(sb)) + sb + (item[a1],)), lead + (item[a1],))
+                if op == 'cross':
+                    vals = np.cross(Ab, Bb[..., None, :] if a1 == 1 else Bb[..., :, None], axisa=len(lead) + a1,
+                                    axisb=len(lead) + a1, axisc=len(lead) + a1)
+                    r = Pm.Qube.cross(a, b, axis1=c['axis1'], axis2=0)
+                else:
+                    vals = np.einsum('...ij,...j->...i', Ab, Bb) if a1 == 1 else np.einsum('...ji,...j->...i', Ab, Bb)
+                    r = Pm.Qube.dot(a, b, axis1=c['axis1'], axis2=0)
+                mask = np.broadcast_to(mask_of(c['a']).reshape((1,) * (len(lead) - len(sa)) + sa), lead) | \
+                    np.broadcast_to(mask_of(c['b']).reshape((1,) * (len(lead) - len(sb)) + sb), lead)
+                obs = observe(r)
+                det = {'impl': str(r)[:400], 'ref_vals': vals.tolist(), 'ref_mask': mask.tolist()}
+                return compare(obs, vals, mask), det, bool(np.any(mask)) or sa != sb
             if fam == 'bin':
                 n = c['a']['item'][0]
                 ca = cls_for(Pm, n, c['special'])
